@@ -48,7 +48,7 @@ def specCheck (prop : String) (op res : List String) : String :=
     -- every leaf function reachable with attacker-controlled text (header values, paths): never a panic
     if ["pct_dec", "pct_enc", "grpc_extract", "connect_extract", "grpc_enc", "connect_enc", "path_unescape", "path_escape", "tmpl_parse", "env_dec", "env_enc", "grpc_dec", "parse_int64", "format_int", "route"].contains op then
       verdict (res != ["panic"]) "panic in a function that processes client- or backend-controlled text"
-    else if ["rest_in", "rest_http", "rest_out", "rest_out_cut", "rest_rt", "schema_req", "schema_rest_grpc", "config", "config_err"].contains op then
+    else if ["rest_in", "rest_http", "rest_out", "rest_out_cut", "rest_rt", "schema_req", "schema_ext", "schema_rest_grpc", "config", "config_err"].contains op then
       -- whole requests (and configurations) with hostile paths, query keys and bodies: never a panic
       let r := " ".intercalate res
       verdict ((r.splitOn "panic").length == 1 && (r.splitOn "PANIC").length == 1) "panic while serving a REST request or building a configuration"
@@ -168,6 +168,9 @@ def specCheck (prop : String) (op res : List String) : String :=
     verdict (res.head? != some "DIFF") "tables or routing differ between two ways of loading the same schema"
   | "C20", ["schema_grpc", _] =>
     verdict (res.head? == some "same") "vanguardgrpc.NewTranscoder differs from the same services registered by name"
+  | "C20", ["schema_ext", _] =>
+    verdict (" ".intercalate res == "status=200 req-ext=true resp-ext=true")
+      "an extension field of a schema that exists only as descriptors was lost (or the RPC failed): dynamic messages must honour the schema's own resolver"
   | "C20", ["schema_req", _] =>
     let r := " ".intercalate res
     if r.startsWith "DIFF" then "fail the same request has different outcomes depending on how the schema was loaded: " ++ (r.take 300).toString
